@@ -8,11 +8,11 @@ RELAY_NOTE = ("Trusted: TLC + CommunityModules, the Go toolchain, the harness pr
               "replayed on the real handlers (level L1: handler.handleMessage without sockets) and validated by TLC step by step.")
 
 CHECKS = {
- "C01": ("model_checking", "RelayMC exhaustive (families core/comps/mods): client replicas rebuilt in TLA+ from the emitted messages equal the server state after every step, for every reachable transition; the same predicate (Ok_C01) is evaluated by TLC on every step of recorded executions of the real code (views rebuilt from the logged messages, compared with the logged authoritative state; join snapshots; inapplicable broadcasts).", "5 C01",
+ "C01": ("model_checking", "RelayMC exhaustive (families core/comps/mods): client replicas rebuilt in TLA+ from the emitted messages equal the server state after every step, for every reachable transition; the same predicate (Ok_C01) is evaluated by TLC on every step of recorded executions of the real code (views rebuilt from the logged messages, compared with the logged authoritative state; join snapshots; inapplicable broadcasts). Lock grain: RelayConc.tla (every Lock/RLock call of the join/leave/entity/vikja paths is a program location) explored exhaustively by TLC; behaviours generated from it are forced step by step on the real handlers (cooperative scheduler, harness l1m) and random schedules of the real handlers are validated by RelayConcTrace (every decision a step of the specification, state and outputs equal at the end of every phase; L_* invariants judge the logged execution). ConvUnlessKnown: convergence at rest fails only in the listed ways (known findings D9, D15-D18), each with a TLC witness schedule that is forced on the real handlers on every run.", "5 C01",
          "TLA+ spec (Relay/RelayProps) + TLC exhaustive + trace validation of real-code L1 traces"),
- "C02": ("model_checking", "Observational predicate Ok_C02: per recipient, the relays of a step equal exactly one relay per accepted change, none to the actor, none outside the session, none for refusals - checked on every transition of RelayMC and on every step of recorded real executions.", "5 C02",
+ "C02": ("model_checking", "Observational predicate Ok_C02: per recipient, the relays of a step equal exactly one relay per accepted change, none to the actor, none outside the session, none for refusals - checked on every transition of RelayMC and on every step of recorded real executions. Lock grain: RelayConc.tla (every Lock/RLock call of the join/leave/entity/vikja paths is a program location) explored exhaustively by TLC; behaviours generated from it are forced step by step on the real handlers (cooperative scheduler, harness l1m) and random schedules of the real handlers are validated by RelayConcTrace (every decision a step of the specification, state and outputs equal at the end of every phase; L_* invariants judge the logged execution). L_RelayOnce: members that stay in the session throughout a phase get every accepted change of the others exactly once.", "5 C02",
          "TLA+ action property + TLC trace validation of real-code traces"),
- "C03": ("model_checking", "Local-respect unwinding condition Ok_C03 (a step changes and reaches only the sessions the actor is in) on every transition of the model (2 sessions, coinciding ids, id reuse) and on every step of multi-session real executions.", "5 C03",
+ "C03": ("model_checking", "Local-respect unwinding condition Ok_C03 (a step changes and reaches only the sessions the actor is in) on every transition of the model (2 sessions, coinciding ids, id reuse) and on every step of multi-session real executions. The state invariant isolation rests on (a member's session is the one registered under its id) is also evaluated after the id-reuse blocks of the schedules stage.", "5 C03",
          "TLA+ unwinding conditions + TLC trace validation"),
  "C04": ("model_checking", "Decision table of realtime.go/modules as Process sub-actions; Ok_C04 compares the logged response with Step(pre, request) and requires refusals to leave the logged state unchanged; exhaustive over families core/comps/mods/custom and validated on generated + seeded histories covering every request kind.", "5 C04",
          "TLA+ decision table + TLC trace validation"),
@@ -20,13 +20,13 @@ CHECKS = {
          "TLA+ action property over logged states + TLC trace validation"),
  "C06": ("model_checking", "Ok_C06: on every departure (disconnect, handler error, switch) the logged session equals LeaveOf(pre) of the specification in entities, components, actions, assets, subscriptions, members, and the remaining members get exactly the specified relays; NoDangling on every state.", "5 C06",
          "TLA+ LeaveOf + TLC trace validation"),
- "C07": ("model_checking", "Sequential clauses: registry = non-empty sessions, gauge = |registry|, join success => member of the session found under the returned id, reused id => fresh uuid and empty record, no ended session keeps a running frame worker (virtual ticker). Schedules clause: see C07 notes in DESIGN.md.", "5 C07",
+ "C07": ("model_checking", "Sequential clauses: registry = non-empty sessions, gauge = |registry|, join success => member of the session found under the returned id, reused id => fresh uuid and empty record, no ended session keeps a running frame worker (virtual ticker). Schedules clause: see C07 notes in DESIGN.md. Lock grain: RelayConc.tla (every Lock/RLock call of the join/leave/entity/vikja paths is a program location) explored exhaustively by TLC; behaviours generated from it are forced step by step on the real handlers (cooperative scheduler, harness l1m) and random schedules of the real handlers are validated by RelayConcTrace (every decision a step of the specification, state and outputs equal at the end of every phase; L_* invariants judge the logged execution). Frame workers: sessions created and ended under four scheduling patterns leave no goroutine inside StartDispatchFrames.", "5 C07",
          "TLA+ invariants + TLC trace validation"),
- "C10": ("model_checking", "Ghost sets of ids ever issued per session incarnation; Ok_C10 on every transition of the model (family ids with id reuse) and every step of real executions; id-source sequences exhaustively (IdGen.tla).", "5 C10",
+ "C10": ("model_checking", "Ghost sets of ids ever issued per session incarnation; Ok_C10 on every transition of the model (family ids with id reuse) and every step of real executions; id-source sequences exhaustively (IdGen.tla). Lock grain: RelayConc.tla (every Lock/RLock call of the join/leave/entity/vikja paths is a program location) explored exhaustively by TLC; behaviours generated from it are forced step by step on the real handlers (cooperative scheduler, harness l1m) and random schedules of the real handlers are validated by RelayConcTrace (every decision a step of the specification, state and outputs equal at the end of every phase; L_* invariants judge the logged execution).", "5 C10",
          "TLA+ ghosts + TLC exhaustive + trace validation"),
- "C11": ("model_checking", "Recv/Tick/Proc as separate actions; the real hagall-common scheduler and the real frame worker are driven with a virtual ticker; Ok_C11 checks parking/flush/pop against the spec, relay order per observer and entity, no relay outside a processed update, dropped updates without effect.", "5 C11",
+ "C11": ("model_checking", "Recv/Tick/Proc as separate actions; the real hagall-common scheduler and the real frame worker are driven with a virtual ticker; Ok_C11 checks parking/flush/pop against the spec, relay order per observer and entity, no relay outside a processed update, dropped updates without effect. Lock grain: RelayConc.tla (every Lock/RLock call of the join/leave/entity/vikja paths is a program location) explored exhaustively by TLC; behaviours generated from it are forced step by step on the real handlers (cooperative scheduler, harness l1m) and random schedules of the real handlers are validated by RelayConcTrace (every decision a step of the specification, state and outputs equal at the end of every phase; L_* invariants judge the logged execution). L_FrameHandlers: at rest every member has exactly its own frame handler registered.", "5 C11",
          "TLA+ scheduler model + virtual frame ticker + TLC trace validation"),
- "C12": ("model_checking", "Components are a map in the spec; Ok_C12 compares the logged component/type state and the responses with Step(pre, request); update of a missing component relays nothing.", "5 C12",
+ "C12": ("model_checking", "Components are a map in the spec; Ok_C12 compares the logged component/type state and the responses with Step(pre, request); update of a missing component relays nothing. Type names and ids stay inverse maps after concurrent registrations (schedules stage, blocks types/components).", "5 C12",
          "TLA+ map model + TLC trace validation"),
  "C13": ("model_checking", "Recipient function of component relays (subscriptions) in the spec; Ok_C13 compares component relays per recipient and the logged subscription state with the spec.", "5 C13",
          "TLA+ recipient function + TLC trace validation"),
@@ -34,7 +34,7 @@ CHECKS = {
          "TLA+ recipient logic + TLC trace validation; sampled bodies"),
  "C08": ("model_checking", "ConnLife.tla: handler.Handle with its three goroutines, the disconnect channel, the scheduler queue, context and wait group; TLC checks DisconnectAtMostOnce, ReturnedMeansDisconnected, NeverStuck and the liveness property HandleReturns for all placements of client frames/closes (and refutes the two unrepaired designs). Wire level (L2): fault class x life point scenarios on the real server over sockets with same-session and other-session witnesses, gauges and goroutine profile; every handler's observed event stream is validated by TLC against ConnLife (ConnTrace, silent steps).", "5 C08",
          "TLA+ connection-grain model + TLC safety/liveness + wire-level trace validation"),
- "C09": ("model_checking", "(A) real handlers under a cooperative scheduler (every Lock/RLock of the hagall packages is a gate, Go RWMutex semantics incl. waiting writers): all interleavings with bounded preemptions of the catalogue blocks and seeded random schedules of blocks of up to 16 connections - no state with unfinished tasks and none enabled; (B) LockSkeleton.tla: lock programs EXTRACTED from executions of the code under test, TLC explores all interleavings of 3-4 handlers for deadlock; (C) lock-discipline table from the specification as a lead generator; (D) wire-level real-thread stress under the Go race detector (named by the property's own quantifier) decides the unsynchronised-access clause.", "5 C09",
+ "C09": ("model_checking", "(A) real handlers under a cooperative scheduler (every Lock/RLock of the hagall packages is a gate, Go RWMutex semantics incl. waiting writers): all interleavings with bounded preemptions of the catalogue blocks and seeded random schedules of blocks of up to 16 connections - no state with unfinished tasks and none enabled; (B) LockSkeleton.tla: lock programs EXTRACTED from executions of the code under test, TLC explores all interleavings of 3-4 handlers for deadlock; (C) lock-discipline table from the specification as a lead generator; (D) wire-level real-thread stress under the Go race detector (named by the property's own quantifier) decides the unsynchronised-access clause. (E) RelayConc.tla with TLC's deadlock check and NoLockLeft; forced and random schedules on the real handlers must not end in a state with unfinished tasks and none enabled.", "5 C09",
          "TLA+ lock skeleton from extracted lock programs + cooperative-scheduler exploration of the real code + race detector"),
  "C15": ("model_checking", "Auth.tla: decision table (secret none/s1/s2 x token class per carrier x bearer prefix x endpoint) with TLC; every row concretised with real JWTs against the real VerifyAuthToken handshake and VerifyAuthTokenHandler middleware mounted like cmd/main.go with a harness-owned inner handler; AuthTrace compares admitted/entered with Admit(row).", "5 C15",
          "TLA+ decision table + concretised rows on the real handshake/middleware"),
